@@ -215,9 +215,12 @@ func orderList(seed int64, shard, n int) []EvalCase {
 	return out
 }
 
-func orderOutcomes(list []EvalCase, order []int) []string {
+func orderOutcomes(list []EvalCase, order []int, beat func()) []string {
 	out := make([]string, len(list))
-	for _, i := range order {
+	for k, i := range order {
+		if beat != nil && k%64 == 0 {
+			beat()
+		}
 		sc, err := formula.ParseSourceCode([]byte(list[i].Src))
 		if err != nil {
 			out[i] = "PARSE " + err.Error()
@@ -252,9 +255,10 @@ func orderPerm(n int, mode string) []int {
 
 var c08Order = core.Mon(c08, "order-independence", func(w *core.W, c *OrderCase) {
 	list := orderList(c.Seed, c.Shard, c.N)
-	fwd := orderOutcomes(list, orderPerm(len(list), "forward"))
+	fwd := orderOutcomes(list, orderPerm(len(list), "forward"), w.Beat)
 	w.Eval(len(list))
 	for _, mode := range []string{"reverse", "stride"} {
+		w.Extend(400 * time.Second)
 		raw, err := core.SelfExec(300, "c08order", fmt.Sprint(c.Seed), fmt.Sprint(c.Shard), fmt.Sprint(c.N), mode)
 		if err != nil {
 			w.Inconclusive("order-independence: child process failed: " + err.Error())
@@ -266,6 +270,7 @@ var c08Order = core.Mon(c08, "order-independence", func(w *core.W, c *OrderCase)
 			return
 		}
 		w.Eval(len(list))
+		w.Beat()
 		for i := range fwd {
 			w.Count("order_comparisons")
 			if fwd[i] != other[i] {
@@ -289,7 +294,7 @@ func init() {
 		fmt.Sscan(args[1], &shard)
 		fmt.Sscan(args[2], &n)
 		list := orderList(seed, shard, n)
-		b, _ := json.Marshal(orderOutcomes(list, orderPerm(len(list), args[3])))
+		b, _ := json.Marshal(orderOutcomes(list, orderPerm(len(list), args[3]), nil))
 		fmt.Println(string(b))
 		return 0
 	})
